@@ -49,6 +49,7 @@ def main() -> int:
     ap.add_argument("--only")
     ap.add_argument("--seeded", action="store_true", help="also run /verif/seeded/*/patch.diff")
     ap.add_argument("--keep-replays", action="store_true")
+    ap.add_argument("--progress", action="store_true", help="print each row as soon as it is known")
     a = ap.parse_args()
     with open(os.path.join(HERE, "mutants.json")) as f:
         mutants = json.load(f)
@@ -92,6 +93,9 @@ def main() -> int:
             if status != "CAUGHT":
                 bad += 1
             rows.append((m["name"], m["property"], status, dt, (sig[0][:150] if sig else out[-300:].replace("\n", " | "))))
+            if a.progress:
+                r = rows[-1]
+                print(f"{r[2]:14s} {r[1]} {r[0]:45s} {r[3]:6.1f}s  {r[4]}", flush=True)
             if not a.keep_replays:
                 after = set(os.listdir(os.path.join(VERIF, "replays")))
                 for fn in after - before:
@@ -99,7 +103,8 @@ def main() -> int:
         finally:
             shutil.rmtree(d, ignore_errors=True)
     for r in rows:
-        print(f"{r[2]:14s} {r[1]} {r[0]:45s} {r[3]:6.1f}s  {r[4]}")
+        if not a.progress:
+            print(f"{r[2]:14s} {r[1]} {r[0]:45s} {r[3]:6.1f}s  {r[4]}")
     print(f"{len(rows) - bad}/{len(rows)} caught")
     return 0 if bad == 0 else 1
 
